@@ -704,6 +704,9 @@ class C15Harness(DocMixin):
             bad = A if self.p.get("which", "a") == "a" else B
             o = app.run_main(self.argv, files, undecodable=[bad])
             faulted, fault_file = True, bad
+            originals = dict(originals)
+            originals[bad] = None
+            other_alone = None  # the continue-on-error clause is about plugin and parser failures
         elif self.sc == "crash":
             o = app.run_main(self.argv, files, crash_at=k)
             return ("crash", o, o.code == "crash", originals, fixed_alone)
